@@ -2,6 +2,7 @@ pub mod config;
 pub mod datetime;
 pub mod debugger;
 pub mod hash;
+pub mod json;
 pub mod path;
 pub mod response;
 pub mod storage_header;
